@@ -369,6 +369,14 @@ fn check_derived(c: &Query, psym: &PartialDSym, ssym: &SimpleDSym, obs: &mut Obs
     let oc = guarded(|| oriented_cover(psym)).map_err(|m| format!("oriented_cover panics: {}", m))?;
     let om = check_self_consistent(&oc, "oriented_cover(x)")?;
     ensure!(om.size == ds.size || om.size == 2 * ds.size, "oriented_cover(x) has {} chambers, x has {}", om.size, ds.size);
+    // chamber d of the result lies over chamber (d - 1) mod size + 1 (documented numbering of derived::cover):
+    // same degrees there, whatever their size
+    for i in 0..n {
+        for d in 1..=om.size {
+            let b = (d - 1) % ds.size + 1;
+            ensure!(om.m(i, d) == ds.m(i, b), "oriented_cover(x): m({}, {}, {}) = {}, the chamber {} it lies over has degree {}", i, i + 1, d, om.m(i, d), b, ds.m(i, b));
+        }
+    }
     let od = dual(&oc);
     ensure!(DS::from_dsym(&od) == om.dual(), "dual(oriented_cover(x)) is not the dual of oriented_cover(x)");
     if ds.is_connected() && ds.size <= 300 {
@@ -588,6 +596,25 @@ pub fn run(ctx: &mut Ctx) {
     // higher dimensions; sizes across 64 / 128 / 256 / 1024 chambers
     ctx.run_prop(&SUB_QUERY, || q(prop_oneof![random_symbol_any(4, 1..=20), random_symbol_any(5, 1..=16), random_symbol_any(6, 1..=12), random_symbol(4, 21..=70)].boxed()), n / 4);
     ctx.run_prop(&SUB_QUERY, || q(prop_oneof![random_symbol(2, 61..=70), random_symbol(3, 120..=135), random_symbol(2, 250..=262), random_symbol(3, 1020..=1030)].boxed()), n / 200);
+    // branching numbers and degrees across 2^8 and 2^16 (a few orbits scaled up)
+    let scaled = |s: BoxedStrategy<DS>| {
+        (s, any::<u64>()).prop_map(|(mut ds, h)| {
+            let mut k = h;
+            for i in 0..ds.dim {
+                for d in 1..=ds.size {
+                    if ds.orbit2(i, i + 1, d)[0] == d {
+                        k = k.wrapping_mul(6364136223846793005).wrapping_add(1442695040888963407);
+                        let f = [1usize, 1, 1, 43, 64, 85, 128, 255, 256, 257, 21845, 65536][(k >> 33) as usize % 12];
+                        let v = ds.v[i][d] * f;
+                        ds.set_v(i, d, v);
+                    }
+                }
+            }
+            ds
+        })
+        .boxed()
+    };
+    ctx.run_prop(&SUB_QUERY, || q(scaled(prop_oneof![random_symbol_any(2, 1..=16), random_symbol_any(3, 1..=12), random_symbol_any(1, 1..=10)].boxed())), n / 4);
     // outputs of the crate's own generators, as they come (SimpleDSet with counters)
     ctx.layer("generator-outputs");
     let gens: Vec<Query> = [(1usize, 6usize), (2, t.pick(5, 7)), (3, t.pick(4, 5))]
